@@ -152,7 +152,32 @@ def attribute(ev, state, base, attr, node):
         return select(base, ('fld', {'min': 0, 'max': 1, 'bits': 2}[attr]))
     if k == 'tuple' and base.meta == ('slice',):
         return select(base, ('fld', {'start': 0, 'stop': 1}[attr]))
+    h = EXTRA_ATTRS.get((k, attr))
+    if h is not None:
+        ev.ctx.trusted_used.add(f'attr:{k}.{attr}')
+        return h(ev, state, base, node)
     return None
+
+
+EXTRA_ATTRS = {}     # (type kind, attribute) -> handler(ev, state, base, node): extension attributes
+                     # of array-like objects (e.g. h5py Dataset.chunks), registered by pyvc/ext/*
+
+
+def reduce_minmax2(ev, state, v, which, node):
+    """m.min() / m.max() of a 2-D array: a bound of every element that is attained"""
+    if v.ty[1] not in (T.INT, T.REAL):
+        raise Unsupported(f"{which} of {T.show(v.ty)}")
+    n0, n1 = m_n0(v), m_n1(v)
+    ev.ctx.oblige(state, z3.And(n0 > 0, n1 > 0), 'ValueError', node,
+                  f'{which}() of a non-empty 2-D array')
+    r = fresh(v.ty[1], which)
+    i, j = z3.Int(fresh_name('mi')), z3.Int(fresh_name('mj'))
+    wi, wj = z3.Int(fresh_name('argm_i')), z3.Int(fresh_name('argm_j'))
+    cmp = (lambda a, b: a <= b) if which == 'min' else (lambda a, b: a >= b)
+    state.assume(0 <= wi, wi < n0, 0 <= wj, wj < n1, m_at(v, wi, wj) == r.term,
+                 z3.ForAll([i, j], z3.Implies(z3.And(0 <= i, i < n0, 0 <= j, j < n1),
+                                              cmp(r.term, m_at(v, i, j)))))
+    return r
 
 
 def reduce_minmax(ev, state, v, which, node):
@@ -476,6 +501,11 @@ def method(ev, state, node, recv, ref, name):
             raise Unsupported("arr.sum()")
         if name == 'tolist':
             return SymVal(T.TList(recv.ty[1]), recv.term)
+    if recv.ty[0] == 'arr2':
+        if name in ('min', 'max') and not node.args and not node.keywords:
+            return reduce_minmax2(ev, state, recv, name, node)
+        if name == 'copy':
+            return SymVal(recv.ty, recv.term)
     return None
 
 
@@ -514,6 +544,21 @@ def arr2_subscript(ev, state, base, node):
     sl = node.slice
     n0, n1 = m_n0(base), m_n1(base)
     ety = base.ty[1]
+    if isinstance(sl, ast.Tuple) and not sl.elts:
+        return SymVal(base.ty, base.term)      # m[()] : the whole array (h5py: read the dataset)
+    if isinstance(sl, ast.Tuple) and len(sl.elts) == 2 and all(isinstance(e, ast.Slice) for e in sl.elts) \
+            and not all(_is_full_slice(e) for e in sl.elts[1:]):
+        # m[a:b, c:d] : rectangular block (bounds clipped as Python slices are)
+        rlo, rhi = ev.slice_bounds(state, n0, sl.elts[0])
+        clo, chi = ev.slice_bounds(state, n1, sl.elts[1])
+        r = fresh(base.ty, 'block')
+        k, c = z3.Int(fresh_name('k')), z3.Int(fresh_name('c'))
+        rn = z3.If(rhi > rlo, rhi - rlo, 0)
+        cn = z3.If(chi > clo, chi - clo, 0)
+        state.assume(m_n0(r) == rn, m_n1(r) == cn,
+                     z3.ForAll([k, c], z3.Implies(z3.And(0 <= k, k < rn, 0 <= c, c < cn),
+                                                  m_at(r, k, c) == m_at(base, rlo + k, clo + c))))
+        return r
     if not isinstance(sl, ast.Tuple) or len(sl.elts) != 2:
         # m[i] -> row i ; m[a:b] -> row block
         sl = ast.Tuple(elts=[sl, ast.Slice(lower=None, upper=None, step=None)], ctx=ast.Load())
